@@ -56,6 +56,27 @@ func init() {
 	mut("C29", "decode-keeps-id-byte", dyn, "\treturn Unmarshal(inputABI, data[1:], actionType.Name)", "\treturn Unmarshal(inputABI, data, actionType.Name)", "type ID byte decoded as payload")
 	mut("C29", "field-order-reversed", dyn, "\t\t\tfields[i] = reflect.StructField{", "\t\t\tfields[len(fields)-1-i] = reflect.StructField{", "rebuilt struct has reversed field order")
 
+	rpc := "api/jsonrpc/server.go"
+	mut("C30", "clone-dropped", rpc, "actionResult.StateKeys = maps.Clone(scope.StateKeys())", "actionResult.StateKeys = scope.StateKeys()\n\t\t_ = maps.Clone(actionResult.StateKeys)", "reported keys emptied by clear")
+	mut("C30", "clear-dropped", rpc, "\t\tclear(scope)\n", "", "keys of earlier actions leak into later reports")
+	mut("C30", "commit-dropped", rpc, "\t\ttsv.Commit()\n\n\t\treply.Outputs", "\t\treply.Outputs", "later actions do not see earlier writes")
+	mut("C30", "action-id-mismatch", rpc, "stateKeysWithPermissions := action.StateKeys(args.Actor, chain.CreateActionID(ids.Empty, uint8(actionIndex)))", "stateKeysWithPermissions := action.StateKeys(args.Actor, ids.Empty)", "keys declared for a different action ID")
+	mut("C30", "read-errors-ignored", rpc, "\t\t\tif err != nil && !errors.Is(err, database.ErrNotFound) {\n\t\t\t\treturn fmt.Errorf(\"failed to read state: %w\", err)", "\t\t\tif err != nil && errors.Is(err, database.ErrNotFound) {\n\t\t\t\treturn fmt.Errorf(\"failed to read state: %w\", err)", "real read errors ignored, not-found fatal")
+	mut("C30", "simulated-has-does-not-record", "state/keys.go", "\tKeys(d).Add(string(key), perm)\n\treturn true", "\treturn true", "simulation reports no keys")
+	mut("C30", "keys-add-overwrites", "state/keys.go", "\tk[key] |= permission", "\tk[key] = permission", "permissions overwritten instead of unioned")
+	mut("C30", "limit-off", rpc, "len(args.Actions) > maxActionsPerTx {", "len(args.Actions) > maxActionsPerTx+1 {", "one action more than the limit accepted")
+
+	idx := "api/indexer/indexer.go"
+	mut("C31", "revert-fix-gap-eviction", idx, "\t\tif i.lastHeight != math.MaxUint64 && i.lastHeight+1 == blk.Block.Hght {", "\t\tif i.lastHeight == i.lastHeight {", "only the exact height is evicted after a gap")
+	mut("C31", "ranged-eviction-off-by-one", idx, "\t\t\t\tif height <= lastEvictedHeight {", "\t\t\t\tif height < lastEvictedHeight {", "the block exactly one window below survives a gap")
+	mut("C31", "evict-forgets-txs", idx, "\tfor _, tx := range evictedBlk.Block.Txs {\n\t\tdelete(i.txCache, tx.GetID())\n\t}", "", "transactions of evicted blocks stay cached")
+	mut("C31", "evict-forgets-id", idx, "\tdelete(i.blockIDToHeight, evictedBlk.Block.GetID())\n", "", "IDs of evicted blocks stay cached")
+	mut("C31", "store-deletes-wrong-height", idx, "blkBatch.Delete(blockEntryKey(blk.Block.Hght - i.blockWindow))", "blkBatch.Delete(blockEntryKey(blk.Block.Hght - i.blockWindow + 1))", "store keeps one block fewer than the cache")
+	mut("C31", "notify-store-unlocked-cache", idx, "\ti.mu.Lock()\n\ti.insertBlockIntoCache(blk)\n\ti.mu.Unlock()", "\ti.insertBlockIntoCache(blk)", "cache mutated without the lock")
+	mut("C31", "tx-timestamp-of-latest", idx, "\treturn true, tx, blk.Block.Tmstmp, result, nil", "\treturn true, tx, i.blockHeightToBlock[i.lastHeight].Block.Tmstmp, result, nil", "timestamp of another block reported")
+	mut("C31", "init-skips-decode-errors", idx, "\t\tblk, err := chain.UnmarshalExecutedBlock(value, i.parser)\n\t\tif err != nil {\n\t\t\treturn err\n\t\t}", "\t\tblk, err := chain.UnmarshalExecutedBlock(value, i.parser)\n\t\tif err != nil {\n\t\t\tcontinue\n\t\t}", "undecodable stored blocks silently dropped at restart")
+	mut("C31", "tx-index-constant", idx, "\t\t\tindex:     idx,", "\t\t\tindex:     idx - idx,", "every transaction mapped to position 0")
+
 	vw := "internal/validitywindow/validitywindow.go"
 	mut("C10", "expiry-boundary", vw, "case containerTimestamp < executionTimestamp:", "case containerTimestamp <= executionTimestamp:", "expiry equal to block time rejected")
 	mut("C10", "future-boundary", vw, "case containerTimestamp > executionTimestamp+validityWindow:", "case containerTimestamp >= executionTimestamp+validityWindow:", "upper boundary off by one")
